@@ -11,8 +11,8 @@ RULE = ("case = (check, mass-configuration class, outside value, route); mass co
         "the box contains both inside and outside points (classification) or the event sample is not degenerate")
 ASSUMPTIONS = ["PDG Dalitz-plot limits from the (23)-frame energies as reference",
                "points closer than 1e-9 (relative to m0^2) to a limit are not judged"]
-FLOORS = {"quick": {"evaluations": 400, "distinct_nontrivial": 20, "hooks": ["lambdify:is_within_phasespace", "lambdify:Kibble", "lambdify:numbers_before_doit", "exact:Kallen", "construct:keyword_order"]},
-          "thorough": {"evaluations": 4000, "distinct_nontrivial": 40, "hooks": ["lambdify:is_within_phasespace", "lambdify:Kibble", "lambdify:numbers_before_doit", "exact:Kallen", "construct:keyword_order"]}}
+FLOORS = {"quick": {"evaluations": 400, "distinct_nontrivial": 20, "hooks": ["lambdify:is_within_phasespace", "lambdify:Kibble", "lambdify:numbers_before_doit", "exact:Kallen", "construct:keyword_order", "exact:boundary_events"]},
+          "thorough": {"evaluations": 4000, "distinct_nontrivial": 40, "hooks": ["lambdify:is_within_phasespace", "lambdify:Kibble", "lambdify:numbers_before_doit", "exact:Kallen", "construct:keyword_order", "exact:boundary_events"]}}
 CASE_TIMEOUT = {"quick": 180, "thorough": 600}
 EPS = np.finfo(float).eps
 MASS_CLASSES = ["generic", "one_massless", "two_massless", "all_massless", "equal", "hierarchical", "near_threshold"]
@@ -252,6 +252,37 @@ def run_case(case, rec, ctx):
                 rec.check(bool(sp.simplify(got_e - want) == 0), "kallen_exact", f"Kallen({X},{Y},{Z}).doit() = {got_e}, expected {want}",
                           {"x": str(X), "y": str(Y), "z": str(Z)}, {**feats, "route": "numbers_before_doit", "zero_argument": 0 in (X, Y, Z)})
     rec.hit("exact:Kallen")
+    # exact boundary events (two decay products at relative rest): in exact rational arithmetic the Kibble function is exactly 0 there;
+    # such an event is physical, so the indicator must be 1 (closed region), for every outside value
+    def Rq(v):
+        return sp.Rational(int(round(v * 8)), 8) if v else sp.Integer(0)
+    M = [Rq(M1 / M0 * 4 + 0.125), Rq(M2 / M0 * 4 + 0.125), Rq(M3 / M0 * 4 + 0.125)] if mc not in ("all_massless",) else [sp.Integer(0)] * 3
+    if mc == "one_massless":
+        M[int(rng.integers(3))] = sp.Integer(0)
+    if mc == "equal":
+        M = [M[0]] * 3
+    m0e = sum(M) + sp.Rational(int(rng.integers(3, 40)), 8)
+    m1e, m2e, m3e = M
+    for pair in ("23", "13", "12"):
+        a_, b_, c_ = {"23": (m2e, m3e, m1e), "13": (m1e, m3e, m2e), "12": (m1e, m2e, m3e)}[pair]
+        if a_ + b_ == 0:
+            continue
+        s_pair = (a_ + b_) ** 2
+        # the third particle c against the pair at relative rest: (p_c + p_b)^2 = m_c^2 + m_b^2 + (m_b/(m_a+m_b)) (m0^2 - m_c^2 - s_pair)
+        def other(mb):
+            return c_ ** 2 + mb ** 2 + mb / (a_ + b_) * (m0e ** 2 - c_ ** 2 - s_pair)
+        s_cb, s_ca = other(b_), other(a_)
+        sig = {"23": {"s1": s_pair, "s2": s_cb, "s3": s_ca}, "13": {"s2": s_pair, "s1": s_cb, "s3": s_ca}, "12": {"s3": s_pair, "s1": s_cb, "s2": s_ca}}[pair]
+        kib = sp.nsimplify(P.Kibble(sig["s1"], sig["s2"], sig["s3"], m0e, m1e, m2e, m3e).doit())
+        closes = sp.simplify(sig["s1"] + sig["s2"] + sig["s3"] - (m0e ** 2 + m1e ** 2 + m2e ** 2 + m3e ** 2)) == 0
+        witx = {"m0": str(m0e), "m1": str(m1e), "m2": str(m2e), "m3": str(m3e), "sigma1": str(sig["s1"]), "sigma2": str(sig["s2"]), "pair_at_rest": pair}
+        rec.check(bool(closes and kib == 0), "exact_boundary", f"Kibble of an exact boundary event (particles {pair} at relative rest) = {kib}, expected exactly 0", witx,
+                  {**feats, "route": "exact_boundary"})
+        for ov_, val_ in (("0", 0), ("-1", -1), ("nan", sp.nan)):
+            ind = P.is_within_phasespace(sig["s1"], sig["s2"], m0e, m1e, m2e, m3e, outside_value=val_).doit()
+            rec.check(ind == 1, "exact_boundary", f"indicator of an exact boundary event (particles {pair} at relative rest, Kibble = 0, outside value {ov_}) = {ind}, expected 1",
+                      witx, {**feats, "route": "exact_boundary", "outside": ov_})
+    rec.hit("exact:boundary_events")
 
 
 META = {
